@@ -339,7 +339,7 @@ def run_case(rec, case):
                             dict(full, variant_name=vname + "+dependency-made-leaner"))
 
 
-def run_shard(rec, shard, nshards):
+def _run_shard_workload(rec, shard, nshards):
     common.loop(rec, shard, nshards, N[rec.tier], CAP[rec.tier], lambda n: run_case(rec, make_case(rec.seed, n)))
 
 
@@ -401,3 +401,14 @@ def canaries(rec):
     out.append(("f6 patch restores the witness", compare(Ew, refenc.Encoder().envelope(p)) is None and
                 compare(Ew, refenc.Encoder().envelope(shown_w)) is not None))
     return out
+
+
+FAULT_PLANE_OPS = ('parse',)
+
+
+def run_shard(rec, shard, nshards):
+    _run_shard_workload(rec, shard, nshards)
+    if shard == 5 % nshards:
+        # complete enumeration of the single file-boundary faults of this property's operations (faultplane.py)
+        from . import faultplane
+        faultplane.run(rec, ID, FAULT_PLANE_OPS)
